@@ -33,7 +33,11 @@ def ref_dist(family, args):
 
 
 def in_support(family, args, x):
-    _, (lo, hi) = ref_dist(family, args)
+    d, (lo, hi) = ref_dist(family, args)
+    if x == lo or x == hi:
+        # a closure point of the support counts as inside exactly when the density there is finite and positive
+        # (gamma with shape 1 at 0, beta(a, 1) at 1, the ends of a uniform interval, ...)
+        return math.isfinite(float(d.logpdf(x)))
     if family in ("uniform", "log-uniform"):
         return lo <= x <= hi
     if family == "gaussian":
@@ -74,11 +78,11 @@ def family_args(draw):
     if fam == "exponential":
         return fam, [draw(_logfl(0.05, 20))]
     if fam == "gamma":
-        alpha = draw(st.one_of(_fl(0.3, 8), st.integers(1, 8).map(float)))
+        alpha = draw(st.one_of(_fl(0.3, 8), st.integers(1, 8).map(float), st.just(1.0)))
         return fam, [alpha, draw(_logfl(0.05, 10))]
     if fam == "beta":
-        a = draw(st.one_of(_fl(0.3, 6), st.integers(1, 6).map(float)))
-        b = draw(st.one_of(_fl(0.3, 6), st.integers(1, 6).map(float)))
+        a = draw(st.one_of(_fl(0.3, 6), st.integers(1, 6).map(float), st.just(1.0)))
+        b = draw(st.one_of(_fl(0.3, 6), st.integers(1, 6).map(float), st.just(1.0)))
         return fam, [a, b]
     if fam == "log-uniform":
         a = draw(_logfl(1e-3, 1e2))
@@ -93,7 +97,7 @@ def one_param(draw, idx):
     fam, args = draw(family_args())
     dist, (lo, hi) = ref_dist(fam, args)
     positive = draw(st.booleans())
-    cls = draw(st.sampled_from(["interior", "interior", "edge_in", "edge_out", "outside"]))
+    cls = draw(st.sampled_from(["interior", "interior", "edge_in", "edge_out", "outside", "on_boundary"]))
     eps = draw(st.sampled_from([1e-3, 1e-6, 1e-9, 1e-12]))
     side = draw(st.sampled_from(["lo", "hi"]))
     if cls == "interior" or (fam == "gaussian" and cls != "outside") or (fam == "gaussian"):
@@ -107,13 +111,15 @@ def one_param(draw, idx):
         bnd = lo if side == "lo" else hi
         scale = max(abs(bnd), (hi - lo) if math.isfinite(hi - lo) else 1.0, 1e-3)
         sign_in = 1.0 if side == "lo" else -1.0
-        if cls == "edge_in":
+        if cls == "on_boundary":
+            x = bnd
+        elif cls == "edge_in":
             x = bnd + sign_in * eps * scale
         elif cls == "edge_out":
             x = bnd - sign_in * eps * scale
         else:
             x = bnd - sign_in * draw(_logfl(1e-2, 30)) * scale
-        if x == bnd:                      # eps vanished in rounding: step one ulp to the intended side
+        if x == bnd and cls != "on_boundary":   # eps vanished in rounding: step one ulp to the intended side
             inward = math.inf if side == "lo" else -math.inf
             x = float(np.nextafter(bnd, inward if cls == "edge_in" else -inward))
     return {"name": f"p{idx}", "family": fam, "args": [float(a) for a in args], "positive": bool(positive),
@@ -177,6 +183,8 @@ def check(case):
             with np.errstate(all="ignore"):
                 lp1 = pid.check_prior({p["name"]: np.float64(x)})
         lp1 = float(lp1)
+        if p.get("cls") == "on_boundary":
+            res.label("value_exactly_on_support_boundary:" + ("finite_density" if in_support(fam, args, x) else "zero_or_infinite_density"))
         if inside:
             res.label(f"inside:{fam}")
             if ref == -math.inf or ref == math.inf:
